@@ -543,29 +543,34 @@ func ruleMetaAtomic(r *core.Run, p *core.Prog) {
 		return
 	}
 	bad, nOK := "", 0
+	set := func(m string) { // keep the first (most specific) diagnosis
+		if bad == "" {
+			bad = m
+		}
+	}
 	for _, t := range ts {
 		if t.has("direct-write") || t.has("rename-meta?") || t.has("createtemp-elsewhere") || t.has("marshal-elsewhere") {
-			bad = "metadata is written other than via a temp file in the day directory renamed onto the metadata path: " + pathLines(p, g, t.path)
+			set("metadata is written other than via a uniquely named temp file (os.CreateTemp in the day directory) renamed onto the metadata path — a fixed temp name left behind by a crash makes every later commit fail or is shared by two writers; a file outside the day directory cannot be renamed atomically: " + pathLines(p, g, t.path))
 		}
 		if t.has("unlink-meta") {
-			bad = "the committed metadata file is removed / truncated in place: between that call and the rename a reader (or a crash) finds the day without metadata: " + pathLines(p, g, t.path)
+			set("the committed metadata file is removed / truncated in place: between that call and the rename a reader (or a crash) finds the day without metadata: " + pathLines(p, g, t.path))
 		}
 		if t.has("rename-meta") {
 			i := t.first("rename-meta")
 			if !(t.first("createtemp") >= 0 && t.first("createtemp") < t.first("marshal") && t.first("marshal") < t.first("close") && t.first("close") < i) {
-				bad = "the rename onto the metadata path is not preceded by create-temp → marshal → close in that order: " + pathLines(p, g, t.path)
+				set("the rename onto the metadata path is not preceded by create-temp → marshal → close in that order: " + pathLines(p, g, t.path))
 			}
 			if t.count("rename-meta") != 1 {
-				bad = "metadata renamed more than once: " + pathLines(p, g, t.path)
+				set("metadata renamed more than once: " + pathLines(p, g, t.path))
 			}
 		}
 		if t.has("rename-dir") && (!t.has("rename-meta") || t.first("rename-dir") < t.first("rename-meta")) {
-			bad = "the day directory is renamed before its metadata file was committed: " + pathLines(p, g, t.path)
+			set("the day directory is renamed before its metadata file was committed: " + pathLines(p, g, t.path))
 		}
 		if t.outcome == "ok" || t.outcome == "call" {
 			nOK++
 			if !t.has("rename-meta") {
-				bad = "a non-failing return is reached without the metadata having been committed: " + pathLines(p, g, t.path)
+				set("a non-failing return is reached without the metadata having been committed: " + pathLines(p, g, t.path))
 			}
 		}
 	}
